@@ -7,7 +7,7 @@ UNIT = dict(
   items=[
     ('laythe_vm/src/fiber/exception_handler.rs', ['struct ExceptionHandler', ('impl ExceptionHandler', None)]),
     ('laythe_vm/src/fiber/mod.rs', ['enum FiberState', 'enum UnwindResult',
-      ('impl Fiber', ['exception_handler', 'stack_unwind', 'pause_unwind', 'finish_unwind', 'pop_exception_handler', 'push_exception_handler', 'error_while_handling', 'activate', 'frames', 'frame_count', 'print_error'])]),
+      ('impl Fiber', ['exception_handler', 'stack_unwind', 'pause_unwind', 'finish_unwind', 'pop_exception_handler', 'push_exception_handler', 'error_while_handling', 'activate', 'frames', 'frame_count', 'print_error', 'error_backtrace'])]),
   ],
   rewrites=[
     ('R7f', 'struct ExceptionHandler'),
@@ -66,7 +66,11 @@ UNIT = dict(
     ('R13', 'Fiber::print_error', dict(pat=r'for \(index, frame\) in self\.frames\.iter\(\)\.rev\(\)\.enumerate\(\) \{', rep='let mut index: usize = 0;\n    while index < self.frames.len() {\n      let frame = &self.frames[self.frames.len() - 1 - index];', regex=True, optional=True)),
     ('R13', 'Fiber::print_error', dict(pat=r'for frame in self\.frames\.iter\(\)\.rev\(\) \{', rep='let mut index: usize = 0;\n    while index < self.frames.len() {\n      let frame = &self.frames[self.frames.len() - 1 - index];', regex=True, optional=True)),
     ('R13', 'Fiber::print_error', dict(pat=r'(log\.verif_frame_line\([^;]*;)', rep=r'\1\n      index += 1;', regex=True, count=1)),
-    ('R9', 'Fiber::finish_unwind', dict(pat='let backtrace = self.error_backtrace(&handler);', rep='let backtrace = self.verif_error_backtrace(&handler);', count=1)),
+    # ---- error_backtrace (C18): the strings of e.backTrace. The iterator chain becomes its loop (R13c); which ip and which code offset each
+    # line is computed from stays real text; the formatted line itself (frame_line: format!) is one stub per line
+    ('R13c', 'Fiber::error_backtrace'),
+    ('R8', 'Fiber::error_backtrace', dict(pat=r'let fun = frame\.fun\(\);\s*let offset = unsafe \{ ([\w.()*]+)\.offset_from\(fun\.chunk\(\)\.instructions\(\)\.as_ptr\(\)\) \} as usize;', rep=r'let verif_ip = *\1;\n        let offset = verif_code_offset(frame, verif_ip);', regex=True, count=1)),
+    ('R8', 'Fiber::error_backtrace', dict(pat=r'frame_line\(fun, ((?:[^()]|\([^()]*\))*)\)', rep=r'verif_frame_line_str(frame, \1)', regex=True, count=1)),
     ('R4', 'Fiber::exception_handler', dict(pat='self.exception_handlers.last().copied()', rep='match self.exception_handlers.last() { Some(verif_h) => Some(*verif_h), None => None }', count=1)),
     ('R3', 'Fiber::pop_exception_handler', dict(pat=r'assert!\(\s*self\.exception_handlers\.pop\(\)\.is_some\(\),\s*"[^"]*"\s*\);', rep='let verif_p = self.exception_handlers.pop(); assert!(verif_p.is_some());', regex=True, count=1)),
     ('R3', 'Fiber::pause_unwind', dict(pat=r'assert!\(matches!\(\s*self\.state,\s*FiberState::Running \| FiberState::Unwinding\s*\)\);', rep='assert!(self.state == FiberState::Running || self.state == FiberState::Unwinding);', regex=True, count=1)),
